@@ -215,9 +215,14 @@ void COTmrUnlock(void)                              { LockDepth--; if (LockDepth
 /* scripted reaction of the application inside the mode change callback ("modecb <mode> setmode <m>" / "modecb <mode> trigpdo <n>" /
  * "modecb 0 off"): a self-starting device, a device that refuses OPERATIONAL, a status PDO sent on every mode change */
 static int McbMode, McbAct, McbArg, McbDepth;
+static int McbRamFill = -1;    /* "ramfillcb <byte>": on the notification of INITIALISING the application sets its factory defaults (all parameter RAM) */
 void CONmtModeChange(CO_NMT *nmt, CO_MODE mode)
 {
     printf("cb mode %d\n", (int)mode);
+    if (McbRamFill >= 0 && mode == CO_INIT) {
+        for (int g = 0; g < MAXPG; g++) if (Pg[g].used) memset(Pg[g].ram, McbRamFill, Pg[g].pg.Size);
+        printf("cb ramfill %d\n", McbRamFill);
+    }
     if (McbAct != 0 && (int)mode == McbMode && McbDepth < 3) {
         McbDepth++;
         if (McbAct == 1) CONmtSetMode(nmt, (CO_MODE)McbArg);
@@ -701,6 +706,7 @@ int main(void)
         } else if (!strcmp(c, "tproc")) { COTmrProcess(&Node->Tmr);
         } else if (!strcmp(c, "hbeventcb")) { HecSub = (int)strtol(ARG(1), NULL, 0); HecV1 = argc > 2 ? X(2) : 0; HecV2 = argc > 3 ? X(3) : HecV1;
         } else if (!strcmp(c, "hbchangecb")) { HccSub = (int)U(1); HccV1 = X(2); HccV2 = X(3);
+        } else if (!strcmp(c, "ramfillcb")) { McbRamFill = (int)strtol(ARG(1), NULL, 0); step = 0;
         } else if (!strcmp(c, "modecb")) { McbMode = (int)U(1); McbAct = !strcmp(ARG(2), "setmode") ? 1 : !strcmp(ARG(2), "trigpdo") ? 2 : 0; McbArg = argc > 3 ? (int)U(3) : 0;
         } else if (!strcmp(c, "setmode")) { CONmtSetMode(&Node->Nmt, (CO_MODE)U(1));
         } else if (!strcmp(c, "getmode")) { printf("ret %d\n", (int)CONmtGetMode(&Node->Nmt));
@@ -763,6 +769,7 @@ int main(void)
                    CO_ERR e = COCSdoRequestDownload(cs, CO_DEV(X(2), X(3)), b, (uint32_t)sz, csdo_cb, U(5));
                    if (e == CO_ERR_NONE) { CsBuf[n] = b; CsLen[n] = (uint32_t)sz; }
                    printf("ret %d\n", (int)e); }
+        } else if (!strcmp(c, "appclear")) { CbReqTmo = 0; CbReqRes = -1; CbEmcy = 0; CbTmrTag = -1; HecSub = 0; HccSub = 0; McbAct = 0;   /* the scripted application forgets its plans */
         } else if (!strcmp(c, "csdocbreq")) { CbReqTmo = U(1); CbReqRes = -1;
         } else if (!strcmp(c, "csdocbreqres")) { printf("ret %d\n", CbReqRes); CbReqRes = -1;
         } else if (!strcmp(c, "csdocbemcy")) { CbEmcy = 1;
